@@ -5,7 +5,7 @@ Close Scope Qc_scope. Open Scope nat_scope.
 
 (* how an implementation distance v relates to the model key s:
    exact, or v is the p-th root of s (euclidean / Minkowski: the model orders by the root-free form) *)
-Inductive cmpk := CExact | CRoot (p : nat) (tol : Qc).
+Inductive cmpk := CExact | CRoot (p : nat) (tol : Qc) | CAbs (tol : Qc).
 
 Definition key_match (c : cmpk) (impl model : ext) : bool :=
   match impl, model with
@@ -13,6 +13,7 @@ Definition key_match (c : cmpk) (impl model : ext) : bool :=
   | Fin v, Fin s => match c with
                     | CExact => Qceqb v s
                     | CRoot p tol => qclose tol (1 + s)%Qc (Qcpower v p) s
+                    | CAbs tol => qclose tol 1%Qc v s
                     end
   | _, _ => false
   end.
@@ -20,7 +21,8 @@ Definition key_match (c : cmpk) (impl model : ext) : bool :=
 Definition key_close (c : cmpk) (a b : ext) : bool :=
   match a, b with
   | Inf, Inf => true
-  | Fin x, Fin y => match c with CExact => Qceqb x y | CRoot _ tol => qclose tol (1 + y)%Qc x y end
+  | Fin x, Fin y => match c with CExact => Qceqb x y | CRoot _ tol => qclose tol (1 + y)%Qc x y
+                                 | CAbs tol => qclose tol 1%Qc x y end
   | _, _ => false
   end.
 
@@ -74,7 +76,7 @@ Definition slots_ok (slots : list slot) (mkeys : list ext) : bool :=
 End SlotCheck.
 
 Definition cmp_of (d : distk) (tol : Qc) : cmpk :=
-  match d with DEuclid => CRoot 2 tol | DPow p => CRoot p tol | _ => CExact end.
+  match d with DEuclid => CRoot 2 tol | DPow p => CRoot p tol | DCosine => CAbs tol | _ => CExact end.
 
 (* SimilarExamples: all queries *)
 Definition check_similar (d : distk) (tol : Qc) sp wk (k : nat) (bs : option nat)
